@@ -158,8 +158,9 @@ namespace sim
 	void simulation::rebind_socket(ip::tcp::socket* prev, ip::tcp::socket* s, ip::tcp::endpoint ep)
 	{
 		auto i = m_listen_sockets.find(ep);
-		assert(i != m_listen_sockets.end());
-		if (i->second != prev) return;
+		// an accepted socket shares its acceptor's endpoint without owning the
+		// entry, which is gone once the acceptor has been closed
+		if (i == m_listen_sockets.end() || i->second != prev) return;
 		i->second = s;
 	}
 
